@@ -28,6 +28,12 @@ def _detect(item):
             calls.append(("lmethod.get_knee(%s,%s)" % (f, c), lm.get_knee, (P[:, 0], P[:, 1], f, c)))
     if mono:
         calls.append(("kneedle(t=0)", kn.knee, (P, 0)))
+    if all(p[1] % 8 == 0 for p in pts):          # integral heights: the same elbow stored as an int64 array
+        PI = P.astype(np.int64)
+        calls += [("curvature[int64]", cu.knee, (PI,)), ("dfdt[int64]", df.knee, (PI,)), ("menger[int64]", me.knee, (PI,)),
+                  ("lmethod.knee(pointfit,adjusted)[int64]", lm.knee, (PI,))]
+        if mono:
+            calls.append(("kneedle(t=0)[int64]", kn.knee, (PI, 0)))
     bad = []
     for name, fn, args in calls:
         out, v, _ = monitor.call(fn, args, budget=5000 * n + 50000, wall=30)
